@@ -129,6 +129,13 @@ def check(basis, symbolic, env=None, seed=0):
 
 
 def replay(cfg, env):
+    if cfg.get("callee"):
+        from drivers import C19 as D19
+        r = D19.replay({"part": "indexing", "size": cfg["size"]})
+        if not r.get("reproduced") and cfg["size"] >= 9:
+            f = long_chain(min(cfg["size"], 10), 0)
+            return {"reproduced": bool(f), "failed_clauses": [(a, str(b)) for a, b in f[:3]], "cfg": cfg}
+        return r
     if cfg.get("mode") == "dictionary":
         from qucumber.utils import unitaries
         d = unitaries.create_dict()
@@ -144,9 +151,46 @@ def replay(cfg, env):
     return {"reproduced": bool(fails), "failed_clauses": [(a, str(b)) for a, b in fails[:4]], "env": env, "cfg": cfg}
 
 
+def long_chain(n, seed=0, rows=24):
+    """Many rotated sites at once (the enumeration of the rotated sub-space has 2^k rows, k = number of non-Z sites):
+    explicit psi / rho, random outcomes, compared with the dense Kronecker product."""
+    from qucumber.utils import unitaries
+    rng = np.random.default_rng(seed)
+    D = 2 ** n
+    basis = "".join(rng.choice(list("XY"), size=n)) if seed % 2 == 0 else "".join(rng.choice(list("XYZ"), size=n, p=[0.45, 0.45, 0.1]))
+    cw = C.make_state("complex", n, 1)
+    dm = C.make_state("mixed", n, 1, 1)
+    ud = unitaries.create_dict()
+    U = reduce(np.kron, [_t2c(ud[b]) for b in basis])
+    psi = rng.normal(size=D) + 1j * rng.normal(size=D)
+    psi /= np.linalg.norm(psi)
+    idx = rng.integers(0, D, size=rows)
+    states = torch.tensor([[(i >> (n - 1 - s)) & 1 for s in range(n)] for i in idx], dtype=torch.double)
+    fails = []
+    got = _t2c(unitaries.rotate_psi_inner_prod(cw, basis, states, psi=_c2t(psi)))
+    want = (U @ psi)[idx]
+    if got.shape != want.shape or not np.allclose(got, want, rtol=1e-9, atol=1e-11):
+        fails.append(("rotate_psi_inner_prod != (U psi)[index] for %d sites, basis %s" % (n, basis), float(np.max(np.abs(got - want)))))
+    full = _t2c(unitaries.rotate_psi(cw, basis, cw.generate_hilbert_space(n), psi=_c2t(psi)))
+    if not np.allclose(full, U @ psi, rtol=1e-9, atol=1e-11):
+        fails.append(("rotate_psi != U psi for %d sites, basis %s" % (n, basis), float(np.max(np.abs(full - U @ psi)))))
+    if n <= 9:
+        rho = np.outer(psi, psi.conj()) * 0.7 + 0.3 * np.eye(D) / D
+        p = unitaries.rotate_rho_probs(dm, basis, states[:3], rho=_c2t(rho)).numpy()
+        wantp = np.real(np.diag(U @ rho @ U.conj().T))[idx[:3]]
+        if not np.allclose(p, wantp, rtol=1e-9, atol=1e-11):
+            fails.append(("rotate_rho_probs != diag(U rho U^dagger)[index] for %d sites, basis %s" % (n, basis), float(np.max(np.abs(p - wantp)))))
+    return fails
+
+
 def bounded(tier, seed):
     import itertools
     n, bad = 0, []
+    for nn, s in (((9, 0), (10, 2), (9, 1)) if tier == "quick" else ((9, 0), (10, 2), (9, 1), (11, 4), (12, 6), (10, 3))):
+        f = long_chain(nn, s + seed * 2)
+        n += 1
+        if f:
+            bad.append(("%d sites" % nn, "long_chain", f[:2]))
     strings = ["".join(s) for k in ((1, 2) if tier == "quick" else (1, 2, 3, 4)) for s in itertools.product("XYZ", repeat=k)]
     for b in strings:
         for sym in (False, True):
@@ -155,5 +199,5 @@ def bounded(tier, seed):
             if f:
                 bad.append((b, sym, f[:2]))
     return {"driver": "drivers/C04.check", "label": "bounded", "evaluations": n, "failures": len(bad),
-            "bound": "float64, %d basis strings x {default dictionary, random complex 2x2 matrices}, random complex psi / non-Hermitian rho" % len(strings),
+            "bound": "float64, %d basis strings x {default dictionary, random complex 2x2 matrices}, random complex psi / non-Hermitian rho; 9-10 (thorough: up to 12) sites, most of them rotated, on explicit states and random outcomes" % len(strings),
             "first_failures": bad[:3]}
